@@ -47,6 +47,16 @@ type BindingOutput struct {
 	Amount        massutil.Amount
 }
 
+// prevTxHeight returns the height of the block holding a previous transaction; a pending
+// (unmined) previous transaction has no block yet and will be mined above the synced tip.
+func (w *WalletManager) prevTxHeight(block *txmgr.BlockMeta) uint64 {
+	if block != nil {
+		return block.Height
+	}
+	height, _ := w.SyncedTo()
+	return height + 1
+}
+
 func (w *WalletManager) constructTxIn(inputs []*TxIn, lockTime uint64) (*wire.MsgTx, []utils.PkScript, massutil.Amount, error) {
 	am := w.ksmgr.CurrentKeystore()
 	if am == nil {
@@ -91,7 +101,7 @@ func (w *WalletManager) constructTxIn(inputs []*TxIn, lockTime uint64) (*wire.Ms
 		switch {
 		case pks.IsStaking():
 			txIn.Sequence = pks.Maturity()
-		case pks.IsBinding() && forks.EnforceMASSIP0002WarmUp(block.Height):
+		case pks.IsBinding() && forks.EnforceMASSIP0002WarmUp(w.prevTxHeight(block)):
 			txIn.Sequence = consensus.MASSIP0002BindingLockedPeriod
 		default:
 		}
@@ -671,7 +681,7 @@ func (w *WalletManager) signWitnessTx(password []byte, tx *wire.MsgTx, hashType 
 		}
 
 		scriptFlags := txscript.StandardVerifyFlags
-		if forks.EnforceMASSIP0002WarmUp(cacheMeta[txIn.PreviousOutPoint.Hash].Height) {
+		if forks.EnforceMASSIP0002WarmUp(w.prevTxHeight(cacheMeta[txIn.PreviousOutPoint.Hash])) {
 			scriptFlags |= txscript.ScriptMASSip2
 		}
 		// Either it was already signed or we just signed it.
